@@ -2398,3 +2398,50 @@ def r100(ctx: Ctx) -> RuleReport:
         else:
             rep.undecided(key, rv.loc(g), sorted(srcs)[0][:50])
     return rep
+
+
+# ---------------------------------------------------------------------------------------------
+@rule('R96b', 'a function whose result the callers use does return one (not None from every exit)')
+def r96b(ctx: Ctx) -> RuleReport:
+    rep = RuleReport('R96b', r96b.title, floor=30)
+    pmaps: Dict[str, dict] = {}
+    for callee in ctx.repo.all_functions():
+        if callee.name in ('__init__', '__repr__', '__str__') or any(isinstance(n, (ast.Yield, ast.YieldFrom)) for n in walk_local(callee.node)):
+            continue
+        rets = [n for n in walk_local(callee.node) if isinstance(n, ast.Return)]
+        valued = [r for r in rets if r.value is not None and not (isinstance(r.value, ast.Constant) and r.value.value is None)]
+        if valued:
+            continue
+        body = [s_ for s_ in callee.node.body if not (isinstance(s_, ast.Expr) and isinstance(s_.value, ast.Constant))]
+        if not body or all(isinstance(s_, (ast.Pass, ast.Raise)) for s_ in body):
+            continue
+        # callers that use the result as a value
+        used_at = None
+        for f in ctx.repo.all_functions():
+            for call, ts in ctx.cg.calls_in(f):
+                if not any(t.kind == 'func' and t.func is callee for t in ts) or len([t for t in ts if t.kind == 'func']) != 1:
+                    continue
+                pm = pmaps.setdefault(f.fq, ctx.repo.parent_map(f.node))
+                par = pm.get(id(call))
+                if isinstance(par, ast.Expr):
+                    continue                            # called for its effect
+                if isinstance(par, ast.Return) and f is callee:
+                    continue
+                used_at = (f, call, par)
+                break
+            if used_at:
+                break
+        key = f'{callee.module.name}:{callee.qualname}: returns what its callers use'
+        if used_at:
+            f, call, par = used_at
+            rep.violation(key, callee.loc(), f'no exit of {callee.qualname} returns a value, but {f.qualname} uses the result (`{norm(par)[:60]}`): the caller works with None '
+                          f'(TypeError / AttributeError further on, or "None" in the output)')
+        else:
+            rep.ok(key, callee.loc(), 'result not used')
+    # the functions that do return a value on some exit are covered by R96 when annotated; count them as analysed
+    n = len([f for f in ctx.repo.all_functions()])
+    rep.analysed['functions'] = n
+    for f in ctx.repo.all_functions():
+        if any(isinstance(x, ast.Return) and x.value is not None for x in walk_local(f.node)):
+            rep.ok(f'{f.module.name}:{f.qualname}: has a valued return', f.loc())
+    return rep
